@@ -143,7 +143,7 @@ def make_exception(ex, c, E, bound):
 
 def apply(ex, c, info, fn, bound, cls, closure_env, selfobj):
     """modular rule at a call site: obligation requires, then assume ensures / raises over fresh symbols"""
-    if c.mode == "inline" or info.qualname.endswith(".__init__"):
+    if c.mode == "inline" or c.inline_at_calls or info.qualname.endswith(".__init__"):
         # constructors act on `self`: their contracts are proved for the body; at call sites the body is executed
         ex.inlined.add(info.key)
         return INLINE
